@@ -64,8 +64,21 @@ def enc_cdata(cd):
         bits += '1' + enc_uint(cd['nargs'], 13)
     else:
         bits += '0'
-    bits += '0'  # stack: nothing
-    bits += '0'  # save: empty HashmapE
+    if cd.get('stack') is not None:
+        # stack:(Maybe VmStack), inline: depth:(## 24) stack:(VmStackList depth)
+        sc = enc_stack(cd['stack'])
+        bits += '1' + sc.bits
+        refs += list(sc.refs)
+    else:
+        bits += '0'
+    if cd.get('save'):
+        # save:VmSaveList = cregs:(HashmapE 4 VmStackValue)
+        from . import hashmap
+        root = hashmap.build_hashmap(dict(cd['save']), 4, lambda v: tuple(enc_value(v)))
+        bits += '1'
+        refs.append(root)
+    else:
+        bits += '0'
     if cd.get('cp') is not None:
         bits += '1' + enc_int(cd['cp'], 16)
     else:
@@ -220,13 +233,24 @@ def _dec_tuple(rd, n):
 
 
 def _dec_cdata(rd):
-    cd = {'nargs': None, 'cp': None}
+    cd = {'nargs': None, 'cp': None, 'stack': None, 'save': None}
     if rd.take(1) == '1':
         cd['nargs'] = dec_uint(rd.take(13))
     if rd.take(1) == '1':
-        raise VmModelError('cdata stack not modelled')
+        depth = dec_uint(rd.take(24))
+        cd['stack'] = _dec_list(rd, depth)
     if rd.take(1) == '1':
-        raise VmModelError('cdata save list not modelled')
+        from . import hashmap
+        try:
+            raw = hashmap.parse_hashmap(rd.ref(), 4)
+        except (ValueError, IndexError) as e:
+            raise VmModelError('bad save list: %r' % (e,))
+        cd['save'] = {}
+        for kb, (vb, vr) in raw.items():
+            r2 = _R(RCell(vb, vr))
+            cd['save'][int(kb, 2)] = dec_value(r2)
+            if not r2.done():
+                raise VmModelError('trailing data in save-list value')
     if rd.take(1) == '1':
         cd['cp'] = dec_int(rd.take(16))
     return cd
@@ -283,6 +307,14 @@ def norm(v):
     raise VmModelError(k)
 
 
+def norm_cdata(cd):
+    st = cd.get('stack')
+    sv = cd.get('save')
+    return (('cp', cd.get('cp')), ('nargs', cd.get('nargs')),
+            ('save', tuple(sorted((int(k), norm(v)) for k, v in sv.items())) if sv else None),
+            ('stack', tuple(norm(x) for x in st) if st is not None else None))
+
+
 def norm_cont(c):
     out = {}
     for kk, vv in c.items():
@@ -291,7 +323,7 @@ def norm_cont(c):
         elif isinstance(vv, RCell):
             out[kk] = ('slice', vv.bits, tuple(r.hash.hex() for r in vv.refs))
         elif isinstance(vv, dict):
-            out[kk] = tuple(sorted(vv.items()))
+            out[kk] = norm_cdata(vv)
         else:
             out[kk] = vv
     return tuple(sorted(out.items(), key=lambda x: x[0]))
